@@ -45,7 +45,20 @@ type Module struct {
 	Funcs     []*FuncCfg        `json:"funcs"`
 	Callees   []*Callee         `json:"callees"`
 	ErrorCtor []string          `json:"error_constructors"` // calls that build a non-nil error
+	// generic modules (C19: float64 is a type parameter with a class of operations)
+	TypeParams   string                       `json:"type_params"`   // binders of every definition, e.g. "{α : Type} [C19.Num α]"
+	StructParams string                       `json:"struct_params"` // binders of every generated structure, e.g. "(α : Type)"
+	TypeArgs     string                       `json:"type_args"`     // arguments of a generated structure where it is used, e.g. "α"
+	Structs      []*StructCfg                 `json:"structs"`       // struct types of the repo that become Lean structures
+	Ops          map[string]map[string]string `json:"ops"`           // Go type -> templates for its operators, literals, conversions
 	Ignore    []string          `json:"ignore_calls"`       // statement calls without meaning for the model (logging)
+}
+
+type StructCfg struct {
+	Pkg  string   `json:"pkg"`
+	Go   string   `json:"go"`
+	Lean string   `json:"lean"`
+	Skip []string `json:"skip"` // fields left out (locks, …); embedded fields are always left out
 }
 
 type FuncCfg struct {
@@ -53,6 +66,8 @@ type FuncCfg struct {
 	Go    string   `json:"go"`    // "Recv.Name" or "Name"
 	Lean  string   `json:"lean"`  // name inside the namespace
 	Extra []string `json:"extra"` // callees (by their "go" name) that are parameters of the translated function
+	// int arithmetic of this function is translated without wrap-around (assumption: no overflow, e.g. a counter)
+	IntNoWrap bool `json:"int_nowrap"`
 }
 
 type Callee struct {
@@ -117,6 +132,7 @@ type fn struct {
 	fallible bool     // last result is error
 	results  []string // Go types of the non-error results
 	params   []param
+	mutated  []int // indices of the pointer parameters (receiver included) whose fields the body assigns
 	text     string
 	err      string
 	done     bool
@@ -227,7 +243,7 @@ func recvName(fd *ast.FuncDecl) string {
 // ---------------------------------------------------------------- Go types (as strings)
 
 var basic = map[string]bool{"string": true, "int": true, "bool": true, "byte": true, "uint8": true, "uint16": true, "uint32": true,
-	"uint64": true, "int64": true, "error": true}
+	"uint64": true, "int64": true, "error": true, "float64": true, "int32": true}
 
 func qual(dir, name string) string {
 	if basic[name] {
@@ -300,7 +316,24 @@ func (t *translator) under(tp string) string {
 	return tp
 }
 
+func (t *translator) structOf(tp string) *StructCfg {
+	tp = strings.TrimPrefix(tp, "*")
+	for _, sc := range t.mod.Structs {
+		if qual(sc.Pkg, sc.Go) == tp {
+			return sc
+		}
+	}
+	return nil
+}
+
 func (t *translator) leanType(tp string) string {
+	if sc := t.structOf(tp); sc != nil {
+		n := t.mod.Namespace + "." + sc.Lean
+		if t.mod.TypeArgs != "" {
+			return "(" + n + " " + t.mod.TypeArgs + ")"
+		}
+		return n
+	}
 	u := t.under(tp)
 	if strings.HasPrefix(u, "[]") {
 		return "List (" + t.leanType(u[2:]) + ")"
@@ -356,6 +389,10 @@ type nJoin struct { // an if without return: the values of the variables it assi
 	val  node
 	body node
 }
+type nFold struct { // a range loop that updates variables declared outside it
+	pat, xs, v, vt string
+	body, rest     node
+}
 type nRange struct {
 	xs, v, vt, r string
 	body, rest   node
@@ -406,6 +443,15 @@ func pr(b *strings.Builder, n node, ind string) {
 			b.WriteString(ind + "  )\n")
 			pr(b, x.body, ind)
 		}
+	case nFold:
+		vt := x.v
+		if x.vt != "" {
+			vt = "(" + x.v + " : " + x.vt + ")"
+		}
+		b.WriteString(ind + "let " + x.pat + " := List.foldl (fun " + x.pat + " " + vt + " =>\n")
+		pr(b, x.body, ind+"    ")
+		b.WriteString(ind + "  ) " + x.pat + " " + x.xs + "\n")
+		pr(b, x.rest, ind)
 	case nRange:
 		vt := x.v
 		if x.vt != "" {
@@ -464,6 +510,7 @@ func (e env) with(o *ast.Object, b binding) env {
 }
 
 type cval struct {
+	isFloat bool
 	isStr bool
 	s     string
 	i     *big.Int
@@ -495,6 +542,7 @@ type ftrans struct {
 	// variables visible before the loop that is being translated
 	loopOuter map[*ast.Object]bool
 	joinDepth int
+	inFold    bool
 }
 
 var leanKeywords = map[string]bool{"at": true, "from": true, "fun": true, "end": true, "open": true, "in": true, "do": true, "then": true,
@@ -628,6 +676,12 @@ func (ft *ftrans) constOf(x ast.Expr, e env) *cval {
 				return nil
 			}
 			return &cval{i: i}
+		case token.FLOAT:
+			// only floating-point literals with an integral value (0.0, 1.0)
+			if r, ok := new(big.Rat).SetString(c.Value); ok && r.IsInt() {
+				return &cval{i: new(big.Int).Set(r.Num()), isFloat: true}
+			}
+			return nil
 		case token.STRING:
 			s, err := strconv.Unquote(c.Value)
 			if err != nil {
@@ -708,10 +762,14 @@ func (cv *cval) lean() val {
 	if cv.isStr {
 		return val{s: bytesLit(cv.s), t: "string", cv: cv}
 	}
-	if cv.i.Sign() < 0 {
-		return val{s: "(" + cv.i.String() + ")", t: "untyped-int", cv: cv}
+	tp := "untyped-int"
+	if cv.isFloat {
+		tp = "untyped-float"
 	}
-	return val{s: cv.i.String(), t: "untyped-int", cv: cv}
+	if cv.i.Sign() < 0 {
+		return val{s: "(" + cv.i.String() + ")", t: tp, cv: cv}
+	}
+	return val{s: cv.i.String(), t: tp, cv: cv}
 }
 
 // constRef: a package-level constant becomes a definition of the generated module
@@ -916,6 +974,13 @@ func (ft *ftrans) selector(c *ast.SelectorExpr, e env, pre *[]prelude) val {
 			for _, fl := range st.Fields.List {
 				for _, nm := range fl.Names {
 					if nm.Name == c.Sel.Name {
+						if sc := ft.t.structOf(tp); sc != nil {
+							for _, sk := range sc.Skip {
+								if sk == nm.Name {
+									failf("field %s of %s is left out of the translated structure", nm.Name, tp)
+								}
+							}
+						}
 						var anyFile *ast.File
 						for f, _ := range p.imports {
 							if anyFile == nil || f.Pos() < anyFile.Pos() {
@@ -946,6 +1011,9 @@ func (ft *ftrans) selector(c *ast.SelectorExpr, e env, pre *[]prelude) val {
 func (ft *ftrans) binary(c *ast.BinaryExpr, e env, pre *[]prelude) val {
 	if cv := ft.constOf(c, e); cv != nil {
 		return cv.lean()
+	}
+	if v, ok := ft.opsBinary(c, e, pre); ok {
+		return v
 	}
 	switch c.Op {
 	case token.LAND, token.LOR:
@@ -1032,6 +1100,14 @@ func (ft *ftrans) binary(c *ast.BinaryExpr, e env, pre *[]prelude) val {
 				id, ok := ce.Fun.(*ast.Ident)
 				return ok && id.Name == "len" && id.Obj == nil
 			}
+			if ft.f.cfg != nil && ft.f.cfg.IntNoWrap {
+				// configured assumption: the int arithmetic of this function does not overflow
+				op := "+"
+				if c.Op == token.SUB {
+					op = "-"
+				}
+				return val{s: "(" + atom(a.s) + " " + op + " " + atom(b.s) + ")", t: "int"}
+			}
 			if (isLen(c.X) && small(b)) || (isLen(c.Y) && small(a) && c.Op == token.ADD) {
 				op := "+"
 				if c.Op == token.SUB {
@@ -1044,6 +1120,37 @@ func (ft *ftrans) binary(c *ast.BinaryExpr, e env, pre *[]prelude) val {
 	}
 	failf("binary operator %s on these operands is outside the subset", c.Op)
 	return val{}
+}
+
+// opsBinary: operators of a type whose operations are given by templates (float64 over a class of operations)
+func (ft *ftrans) opsBinary(c *ast.BinaryExpr, e env, pre *[]prelude) (val, bool) {
+	if len(ft.t.mod.Ops) == 0 || c.Op == token.LAND || c.Op == token.LOR {
+		return val{}, false
+	}
+	var p2 []prelude
+	a := ft.expr(c.X, e, &p2)
+	b := ft.expr(c.Y, e, &p2)
+	tp := a.t
+	ops, ok := ft.t.mod.Ops[ft.t.under(a.t)]
+	if !ok {
+		ops, ok = ft.t.mod.Ops[ft.t.under(b.t)]
+		tp = b.t
+	}
+	if !ok {
+		return val{}, false // evaluated again by the caller (the translation of expressions has no side effects but temporaries)
+	}
+	*pre = append(*pre, p2...)
+	a, b = ft.coerce(tp, a), ft.coerce(tp, b)
+	tpl, ok := ops[c.Op.String()]
+	if !ok {
+		failf("operator %s on %s is outside the subset (no template)", c.Op, tp)
+	}
+	rt := tp
+	switch c.Op {
+	case token.LSS, token.GTR, token.LEQ, token.GEQ, token.EQL, token.NEQ:
+		rt = "bool"
+	}
+	return val{s: "(" + subst(tpl, "", []string{atom(a.s), atom(b.s)}) + ")", t: rt}, true
 }
 
 func pick(a, b string) string {
@@ -1291,6 +1398,31 @@ func (ft *ftrans) callFn(g *fn, recv *val, args []ast.Expr, e env, pre *[]prelud
 }
 
 func (ft *ftrans) call(c *ast.CallExpr, e env, pre *[]prelude) val {
+	if id, ok := c.Fun.(*ast.Ident); ok && id.Name == "append" && id.Obj == nil && len(c.Args) >= 1 {
+		// the result of append as a value (what it may share with its argument is not observable here)
+		xs := ft.expr(c.Args[0], e, pre)
+		u := ft.t.under(xs.t)
+		if !strings.HasPrefix(u, "[]") {
+			failf("append to a value of type %q is outside the subset", xs.t)
+		}
+		if c.Ellipsis.IsValid() {
+			if len(c.Args) != 2 {
+				failf("append with ... and %d arguments", len(c.Args))
+			}
+			ys := ft.expr(c.Args[1], e, pre)
+			uy := ft.t.under(ys.t)
+			if uy != u && !(u == "[]byte" && uy == "string") {
+				failf("append of %q to %q is outside the subset", ys.t, xs.t)
+			}
+			return val{s: "(" + atom(xs.s) + " ++ " + atom(ys.s) + ")", t: xs.t}
+		}
+		var els []string
+		for _, a := range c.Args[1:] {
+			v := ft.coerce(u[2:], ft.expr(a, e, pre))
+			els = append(els, v.s)
+		}
+		return val{s: "(" + atom(xs.s) + " ++ [" + strings.Join(els, ", ") + "])", t: xs.t}
+	}
 	if c.Ellipsis.IsValid() {
 		failf("variadic call outside the subset")
 	}
@@ -1388,7 +1520,23 @@ func (ft *ftrans) convert(to string, v val) val {
 	if uf == "uint8" {
 		uf = "byte"
 	}
+	if ops, ok := ft.t.mod.Ops[ut]; ok {
+		if uf == ut {
+			return val{s: v.s, t: to}
+		}
+		if uf == "untyped-int" || uf == "untyped-float" {
+			return ft.coerce(to, v)
+		}
+		tpl, ok := ops["from:"+uf]
+		if !ok {
+			failf("conversion from %q to %q is outside the subset (no template)", v.t, to)
+		}
+		return val{s: "(" + subst(tpl, "", []string{atom(v.s)}) + ")", t: to}
+	}
 	switch {
+	case (ut == "string" || ut == "[]byte") && (uf == "string" || uf == "[]byte"):
+		// byte strings and byte slices are both byte lists (a conversion copies: value semantics)
+		return val{s: v.s, t: to, cv: v.cv}
 	case ut == "string" && uf == "string":
 		return val{s: v.s, t: to, cv: v.cv}
 	case uintBits(ut) > 0 && uintBits(uf) > 0:
@@ -1460,17 +1608,39 @@ func (ft *ftrans) block(stmts []ast.Stmt, e env, k cont) node {
 		return ft.rng(s, e, rest)
 	case *ast.ExprStmt:
 		if ce, ok := s.X.(*ast.CallExpr); ok {
-			name := ft.qualName(ce.Fun)
-			for _, ig := range ft.t.mod.Ignore {
-				if ig == name {
-					return rest(e)
-				}
+			if ft.ignored(ce) {
+				return rest(e)
 			}
-			failf("statement call of %s is outside the subset", name)
+			failf("statement call of %s is outside the subset", ft.qualName(ce.Fun))
 		}
+	case *ast.DeferStmt:
+		// only calls without meaning for the sequential result (unlocking)
+		if ft.ignored(s.Call) {
+			return rest(e)
+		}
+		failf("defer of %s is outside the subset", ft.qualName(s.Call.Fun))
 	}
 	failf("statement outside the subset (%T)", stmts[0])
 	return nil
+}
+
+// ignored: a call listed in "ignore_calls" — by import path ("go.dedis.ch/onet/v3/log.Lvl3") or, for methods,
+// as "*.Lock" (any receiver)
+func (ft *ftrans) ignored(ce *ast.CallExpr) bool {
+	name := ft.qualName(ce.Fun)
+	for _, ig := range ft.t.mod.Ignore {
+		if ig == name {
+			return true
+		}
+		if strings.HasPrefix(ig, "*.") {
+			if sel, ok := ce.Fun.(*ast.SelectorExpr); ok && sel.Sel.Name == ig[2:] {
+				if id, ok := sel.X.(*ast.Ident); !ok || id.Obj != nil { // not a package
+					return true
+				}
+			}
+		}
+	}
+	return false
 }
 
 func render(e ast.Expr) string {
@@ -1495,14 +1665,32 @@ func (ft *ftrans) qualName(e ast.Expr) string {
 	return render(e)
 }
 
+// mutatedNames: the current values of the pointer parameters whose fields the function assigns
+func (ft *ftrans) mutatedNames() []string {
+	var ns []string
+	for _, i := range ft.f.mutated {
+		ns = append(ns, ft.nameOf(ft.f.params[i].obj))
+	}
+	return ns
+}
+
 func (ft *ftrans) ret(s *ast.ReturnStmt, e env) node {
 	f := ft.f
 	n := len(f.results)
 	if f.fallible {
 		n++
 	}
+	if ft.inFold {
+		failf("return inside a loop that updates variables is outside the subset")
+	}
 	if len(s.Results) == 0 {
+		if n == 0 && len(f.mutated) > 0 {
+			return nLeaf{ft.okTerm(tupleOf(ft.mutatedNames()))}
+		}
 		failf("bare return is outside the subset")
+	}
+	if len(f.mutated) > 0 && (f.fallible || len(s.Results) != len(f.results)) {
+		failf("a function that updates its receiver and returns an error or a multi-valued call is outside the subset")
 	}
 	var pre []prelude
 	// return g(x): all results come from one call
@@ -1541,7 +1729,7 @@ func (ft *ftrans) ret(s *ast.ReturnStmt, e env) node {
 		}
 	}
 	// tail call of a function that may panic: its result is the result
-	if len(f.results) == 1 && !f.fallible {
+	if len(f.results) == 1 && !f.fallible && len(f.mutated) == 0 {
 		if ce, ok := unparen(s.Results[0]).(*ast.CallExpr); ok {
 			g := ft.calledFn(ce, e)
 			if g != nil {
@@ -1566,11 +1754,16 @@ func (ft *ftrans) ret(s *ast.ReturnStmt, e env) node {
 		ft.assignable(f.results[i], v)
 		vs = append(vs, v.s)
 	}
+	vs = append(vs, ft.mutatedNames()...)
+	return ft.wrap(pre, nLeaf{ft.okTerm(tupleOf(vs))})
+}
+
+func tupleOf(vs []string) string {
 	t := strings.Join(vs, ", ")
 	if len(vs) > 1 {
 		t = "(" + t + ")"
 	}
-	return ft.wrap(pre, nLeaf{ft.okTerm(t)})
+	return t
 }
 
 func unparen(x ast.Expr) ast.Expr {
@@ -1653,6 +1846,25 @@ func (ft *ftrans) assignable(to string, v val) {
 	}
 }
 
+// coerce: v where a value of type `to` is needed (an untyped constant becomes a literal of that type)
+func (ft *ftrans) coerce(to string, v val) val {
+	ut := ft.t.under(to)
+	if ops, ok := ft.t.mod.Ops[ut]; ok {
+		if ft.t.under(v.t) == "untyped-int" || ft.t.under(v.t) == "untyped-float" {
+			if v.cv == nil || v.cv.isStr || v.cv.i.Sign() < 0 {
+				failf("constant of type %s outside the subset", to)
+			}
+			tpl, ok := ops["lit"]
+			if !ok {
+				failf("no literal template for %s", ut)
+			}
+			return val{s: "(" + subst(tpl, "", []string{v.cv.i.String()}) + ")", t: to}
+		}
+	}
+	ft.assignable(to, v)
+	return v
+}
+
 func (ft *ftrans) errClass(x ast.Expr, e env) string {
 	switch c := unparen(x).(type) {
 	case *ast.Ident:
@@ -1678,6 +1890,54 @@ func (ft *ftrans) errClass(x ast.Expr, e env) string {
 		}
 	}
 	return ""
+}
+
+// lhsBase: the variable an assignment writes to — `x` itself or, for `x.f = …`, the struct variable `x`
+func lhsBase(x ast.Expr) (*ast.Ident, string) {
+	switch c := x.(type) {
+	case *ast.Ident:
+		return c, ""
+	case *ast.SelectorExpr:
+		if id, ok := c.X.(*ast.Ident); ok {
+			return id, c.Sel.Name
+		}
+	}
+	return nil, ""
+}
+
+// assignedVars: the variables bound in e that the statements assign to (fields included), in source order
+func assignedVars(n ast.Node, e env) []*ast.Object {
+	seen := map[*ast.Object]bool{}
+	var order []*ast.Object
+	add := func(x ast.Expr) {
+		if id, _ := lhsBase(x); id != nil && id.Obj != nil {
+			if b, ok := e[id.Obj]; ok && b.kind == bVar && !seen[id.Obj] {
+				seen[id.Obj] = true
+				order = append(order, id.Obj)
+			}
+		}
+	}
+	ast.Inspect(n, func(n ast.Node) bool {
+		switch c := n.(type) {
+		case *ast.AssignStmt:
+			if c.Tok != token.DEFINE {
+				for _, l := range c.Lhs {
+					add(l)
+				}
+			} else {
+				// a := … re-uses variables of the same scope; only selectors can hit outer ones
+				for _, l := range c.Lhs {
+					if _, f := lhsBase(l); f != "" {
+						add(l)
+					}
+				}
+			}
+		case *ast.IncDecStmt:
+			add(c.X)
+		}
+		return true
+	})
+	return order
 }
 
 func (ft *ftrans) lhsObj(x ast.Expr) *ast.Object {
@@ -1709,15 +1969,72 @@ func (ft *ftrans) assign(s *ast.AssignStmt, e env, k cont) node {
 	}
 	if ft.inLoop && s.Tok == token.ASSIGN {
 		for _, l := range s.Lhs {
-			if o := ft.lhsObj(l); o != nil {
-				if _, outer := ft.loopOuter[o]; outer {
-					failf("a loop that assigns to a variable declared outside it is outside the subset")
+			if id, _ := lhsBase(l); id != nil && id.Obj != nil {
+				if _, outer := ft.loopOuter[id.Obj]; outer {
+					failf("a loop with a return that also assigns to a variable declared outside it is outside the subset")
 				}
 			}
 		}
 	}
+	if len(s.Rhs) == len(s.Lhs) && len(s.Rhs) > 1 {
+		// a, b = x, y: all right-hand sides are evaluated before any assignment
+		var tmps []ast.Expr
+		var n node
+		var build func(i int, e2 env) node
+		build = func(i int, e2 env) node {
+			if i == len(s.Rhs) {
+				var step func(j int, e3 env) node
+				step = func(j int, e3 env) node {
+					if j == len(s.Lhs) {
+						return k(e3)
+					}
+					return ft.assign(&ast.AssignStmt{Lhs: []ast.Expr{s.Lhs[j]}, Tok: s.Tok, Rhs: []ast.Expr{tmps[j]}}, e3, func(e4 env) node { return step(j+1, e4) })
+				}
+				return step(0, e2)
+			}
+			if cv := ft.constOf(s.Rhs[i], e2); cv != nil {
+				tmps = append(tmps, s.Rhs[i])
+				return build(i+1, e2)
+			}
+			var p2 []prelude
+			v := ft.expr(s.Rhs[i], e2, &p2)
+			if v.opt != nil || v.t == "" || v.t == "nonnil" || v.t == "nil" {
+				failf("parallel assignment of such values is outside the subset")
+			}
+			name := ft.tmp()
+			obj := ast.NewObj(ast.Var, name)
+			ft.names[obj] = name
+			id := &ast.Ident{Name: name, Obj: obj}
+			tmps = append(tmps, id)
+			tp := v.t
+			if tp == "untyped-int" {
+				tp = "int"
+			}
+			return ft.wrap(p2, nLet{name: name, typ: ft.t.leanType(tp), val: v.s, body: build(i+1, e2.with(obj, binding{kind: bVar, lean: name, typ: tp}))})
+		}
+		n = build(0, e)
+		return n
+	}
 	if len(s.Rhs) != 1 {
-		failf("parallel assignment is outside the subset")
+		failf("assignment with %d values for %d variables is outside the subset", len(s.Rhs), len(s.Lhs))
+	}
+	// x.f = v: the struct variable is rebound to its updated value
+	if sel, ok := s.Lhs[0].(*ast.SelectorExpr); ok && len(s.Lhs) == 1 && s.Tok == token.ASSIGN {
+		id, _ := lhsBase(sel)
+		if id == nil || id.Obj == nil {
+			failf("assignment to a field of something that is not a variable is outside the subset")
+		}
+		b, ok := e[id.Obj]
+		if !ok || b.kind != bVar || ft.t.structOf(b.typ) == nil {
+			failf("assignment to a field of %s, which is not a variable of a translated struct type", id.Name)
+		}
+		cur := ft.expr(sel, e, &pre) // the field exists and has this type
+		v := ft.expr(s.Rhs[0], e, &pre)
+		if v.opt != nil {
+			failf("assignment of a multi-valued call to a field")
+		}
+		v = ft.coerce(cur.t, v)
+		return ft.wrap(pre, nLet{name: b.lean, val: "{ " + b.lean + " with " + sel.Sel.Name + " := " + v.s + " }", body: k(e)})
 	}
 	v := ft.expr(s.Rhs[0], e, &pre)
 	if v.opt != nil {
@@ -1775,7 +2092,7 @@ func (ft *ftrans) assign(s *ast.AssignStmt, e env, k cont) node {
 		if !ok || old.kind != bVar {
 			failf("assignment to %s, which is not a plain local variable here", o.Name)
 		}
-		ft.assignable(old.typ, v)
+		v = ft.coerce(old.typ, v)
 		tp = old.typ
 	} else if tp == "untyped-int" {
 		tp = "int"
@@ -1926,6 +2243,17 @@ func (ft *ftrans) canPanic(x ast.Expr, e env) bool {
 	return found
 }
 
+func (ft *ftrans) stmtCanPanic(st ast.Stmt, e env) bool {
+	found := false
+	ast.Inspect(st, func(n ast.Node) bool {
+		if x, ok := n.(ast.Expr); ok && ft.canPanic(x, e) {
+			found = true
+		}
+		return !found
+	})
+	return found
+}
+
 func (ft *ftrans) cond(x ast.Expr, e env, th, el cont) node {
 	x = unparen(x)
 	if g, isNeq, ok := ft.errTest(x, e); ok {
@@ -1979,30 +2307,10 @@ func (ft *ftrans) cond(x ast.Expr, e env, th, el cont) node {
 // follows in every branch, the if becomes the value of the variables it assigns.
 func (ft *ftrans) joinIf(s *ast.IfStmt, e env, k cont) node {
 	jumps, errs := false, false
-	assigned := map[*ast.Object]bool{}
-	var order []*ast.Object
 	ast.Inspect(s, func(n ast.Node) bool {
 		switch c := n.(type) {
 		case *ast.ReturnStmt, *ast.BranchStmt, *ast.RangeStmt, *ast.ForStmt, *ast.SwitchStmt:
 			jumps = true
-		case *ast.AssignStmt:
-			if c.Tok != token.DEFINE {
-				for _, l := range c.Lhs {
-					if id, ok := l.(*ast.Ident); ok && id.Obj != nil {
-						if b, ok := e[id.Obj]; ok && b.kind == bVar && !assigned[id.Obj] {
-							assigned[id.Obj] = true
-							order = append(order, id.Obj)
-						}
-					}
-				}
-			}
-		case *ast.IncDecStmt:
-			if id, ok := c.X.(*ast.Ident); ok && id.Obj != nil {
-				if b, ok := e[id.Obj]; ok && b.kind == bVar && !assigned[id.Obj] {
-					assigned[id.Obj] = true
-					order = append(order, id.Obj)
-				}
-			}
 		case *ast.IfStmt:
 			if ft.mentionsErr(c.Cond, e) {
 				errs = true
@@ -2010,6 +2318,7 @@ func (ft *ftrans) joinIf(s *ast.IfStmt, e env, k cont) node {
 		}
 		return true
 	})
+	order := assignedVars(s, e)
 	if jumps || errs || len(order) == 0 {
 		return nil
 	}
@@ -2192,6 +2501,36 @@ func (ft *ftrans) rng(s *ast.RangeStmt, e env, k cont) node {
 		}
 		return true
 	})
+	if state := assignedVars(s.Body, e); len(state) > 0 {
+		// a loop that updates variables declared outside it: a fold over the slice, the state being those variables
+		hasRet := false
+		ast.Inspect(s.Body, func(n ast.Node) bool {
+			if _, ok := n.(*ast.ReturnStmt); ok {
+				hasRet = true
+			}
+			return true
+		})
+		if hasRet {
+			failf("a loop that both returns and updates variables declared outside it is outside the subset")
+		}
+		if ft.inFold {
+			failf("nested loops are outside the subset")
+		}
+		for _, st := range s.Body.List {
+			if ft.stmtCanPanic(st, e2) {
+				failf("a loop that updates variables and can panic is outside the subset")
+			}
+		}
+		var names []string
+		for _, o := range state {
+			names = append(names, ft.nameOf(o))
+		}
+		pat := tupleOf(names)
+		ft.inFold = true
+		body := ft.block(s.Body.List, e2, func(env) node { return nLeaf{pat} })
+		ft.inFold = false
+		return ft.wrap(pre, nFold{pat: pat, xs: atom(xs.s), v: vname, vt: ft.t.leanType(et), body: body, rest: k(e)})
+	}
 	ft.loopOuter = map[*ast.Object]bool{}
 	for o := range e {
 		ft.loopOuter[o] = true
@@ -2242,8 +2581,37 @@ func (t *translator) analyse(g *fn) {
 		}
 		addParam(f.Names, f.Type)
 	}
-	if ft.Results == nil || len(ft.Results.List) == 0 {
-		failf("functions without results are outside the subset")
+	// pointer parameters (the receiver first) whose fields the body assigns: their final values are results
+	for i, p := range g.params {
+		if p.obj == nil || !strings.HasPrefix(p.typ, "*") || t.structOf(p.typ) == nil {
+			continue
+		}
+		hit := false
+		ast.Inspect(g.decl.Body, func(n ast.Node) bool {
+			check := func(x ast.Expr) {
+				if id, f := lhsBase(x); id != nil && f != "" && id.Obj == p.obj {
+					hit = true
+				}
+			}
+			switch c := n.(type) {
+			case *ast.AssignStmt:
+				for _, l := range c.Lhs {
+					check(l)
+				}
+			case *ast.IncDecStmt:
+				check(c.X)
+			}
+			return true
+		})
+		if hit {
+			g.mutated = append(g.mutated, i)
+		}
+	}
+	if (ft.Results == nil || len(ft.Results.List) == 0) && len(g.mutated) == 0 {
+		failf("functions without results that update nothing are outside the subset")
+	}
+	if ft.Results == nil {
+		ft = &ast.FuncType{Params: ft.Params, Results: &ast.FieldList{}}
 	}
 	for _, f := range ft.Results.List {
 		if len(f.Names) > 0 {
@@ -2251,7 +2619,7 @@ func (t *translator) analyse(g *fn) {
 		}
 		g.results = append(g.results, t.typeOf(g.pkg, g.file, f.Type))
 	}
-	if g.results[len(g.results)-1] == "error" {
+	if len(g.results) > 0 && g.results[len(g.results)-1] == "error" {
 		g.fallible = true
 		g.results = g.results[:len(g.results)-1]
 	}
@@ -2260,7 +2628,7 @@ func (t *translator) analyse(g *fn) {
 			failf("an error result that is not the last result is outside the subset")
 		}
 	}
-	if len(g.results) == 0 {
+	if len(g.results) == 0 && len(g.mutated) == 0 {
 		failf("functions that only return an error are outside the subset")
 	}
 }
@@ -2338,6 +2706,9 @@ func (t *translator) translateBody(g *fn) {
 	for _, r := range g.results {
 		rts = append(rts, t.leanType(r))
 	}
+	for _, i := range g.mutated {
+		rts = append(rts, t.leanType(g.params[i].typ))
+	}
 	rt := strings.Join(rts, " × ")
 	if g.fallible {
 		rt = "Option " + atom(rt)
@@ -2346,6 +2717,9 @@ func (t *translator) translateBody(g *fn) {
 		rt = "Option " + atom(rt)
 	}
 	body := ft.block(g.decl.Body.List, e, func(env) node {
+		if len(g.results) == 0 && !g.fallible && len(g.mutated) > 0 {
+			return nLeaf{ft.okTerm(tupleOf(ft.mutatedNames()))} // end of a function without results
+		}
 		failf("control reaches the end of the function without a return")
 		return nil
 	})
@@ -2358,6 +2732,16 @@ func (t *translator) translateBody(g *fn) {
 		b.WriteString("; `none` = a non-nil error")
 	}
 	b.WriteString(" -/\n")
+	if len(g.mutated) > 0 {
+		var ms []string
+		for _, i := range g.mutated {
+			ms = append(ms, g.params[i].name)
+		}
+		fmt.Fprintf(&b, "/- the result carries the final value of %s (updated through the pointer) -/\n", strings.Join(ms, ", "))
+	}
+	if t.mod.TypeParams != "" {
+		ps = append([]string{t.mod.TypeParams}, ps...)
+	}
 	fmt.Fprintf(&b, "def %s %s : %s :=\n", g.cfg.Lean, strings.Join(ps, " "), rt)
 	pr(&b, body, "  ")
 	g.text = b.String()
@@ -2378,6 +2762,67 @@ func main() {
 		os.Exit(1)
 	}
 	fmt.Println("go2lean: ok")
+}
+
+// emitStruct: a struct type of the repo as a Lean structure with the same field names
+func (t *translator) emitStruct(sc *StructCfg) (txt string, errmsg string) {
+	defer func() {
+		if r := recover(); r != nil {
+			f, ok := r.(failure)
+			if !ok {
+				f = failure{fmt.Sprintf("internal error of the translator: %v", r)}
+			}
+			txt, errmsg = "", f.msg
+		}
+	}()
+	p := t.loadPkg(sc.Pkg)
+	st, ok := p.types[sc.Go].(*ast.StructType)
+	if !ok {
+		failf("struct type not found")
+	}
+	var file *ast.File
+	for f := range p.imports {
+		if f.Pos() <= st.Pos() && st.End() <= f.End() {
+			file = f
+		}
+	}
+	var b strings.Builder
+	var left []string
+	var fields []string
+	for _, fl := range st.Fields.List {
+		if len(fl.Names) == 0 {
+			left = append(left, render(fl.Type)) // embedded (sync.Mutex …)
+			continue
+		}
+		for _, nm := range fl.Names {
+			skip := false
+			for _, sk := range sc.Skip {
+				if sk == nm.Name {
+					skip = true
+				}
+			}
+			if skip {
+				left = append(left, nm.Name)
+				continue
+			}
+			name := nm.Name
+			if leanKeywords[name] {
+				failf("field %s has the name of a Lean keyword", name)
+			}
+			fields = append(fields, "  "+name+" : "+t.leanType(t.typeOf(p, file, fl.Type)))
+		}
+	}
+	fmt.Fprintf(&b, "/-- `%s` type `%s`", pkgLabel(sc.Pkg), sc.Go)
+	if len(left) > 0 {
+		fmt.Fprintf(&b, "; fields left out: %s", strings.Join(left, ", "))
+	}
+	b.WriteString(" -/\n")
+	hdr := "structure " + sc.Lean
+	if t.mod.StructParams != "" {
+		hdr += " " + t.mod.StructParams
+	}
+	b.WriteString(hdr + " where\n" + strings.Join(fields, "\n") + "\n")
+	return b.String(), ""
 }
 
 // run translates every module of the configuration; failed lists the functions left out
@@ -2441,6 +2886,15 @@ func run(repo, leanDir, cfgPath string) (failed []string, err error) {
 		sort.Strings(cn)
 		for _, n := range cn {
 			b.WriteString(t.consts[n] + "\n")
+		}
+		for _, sc := range m.Structs {
+			txt, err := t.emitStruct(sc)
+			if err != "" {
+				fmt.Fprintf(&b, "-- NOT TRANSLATED: %s type %s: %s\n\n", pkgLabel(sc.Pkg), sc.Go, err)
+				failed = append(failed, fmt.Sprintf("%s: %s type %s (%s)", m.Out, pkgLabel(sc.Pkg), sc.Go, err))
+				continue
+			}
+			b.WriteString(txt + "\n")
 		}
 		for _, g := range doneOrder {
 			if g.err != "" {
